@@ -26,7 +26,7 @@ func init() {
 			"(nil test, len == 0, a range over it that was not entered, `!flag`, == \"\"), that the child is of a node kind without content, or — for flags/operators — that the path branched on it. " +
 			"R-traversal only demands that the field is read somewhere; a printer that inspects a child in a condition and then returns text without it on a path where the child exists " +
 			"(`return note(\"x\");` printed as `return;` because the value's TYPE is null) prints a different program. Fields the method never mentions are R-traversal's findings and are not repeated here."})
-	register(&Rule{ID: "R-print-delimiters", Floor: 120, Run: func(c *Ctx) []Obligation { return r2pPrintRun(c).delims },
+	register(&Rule{ID: "R-print-delimiters", Floor: 220, Run: func(c *Ctx) []Obligation { return r2pPrintRun(c).delims },
 		Doc: "For every String() method of a node struct and every child/type field it prints: the bracket context of the field's text in the returned string — the unmatched opening delimiters ( [ { \" to its left and the unmatched closing ones to its right, " +
 			"computed on the symbolic result of each path — is the same on every path that prints the field; a printer that encloses a child in `(`…`)` on some paths and prints it bare on others is only accepted when the twin struct's printer " +
 			"shows the same set of contexts for the same field. Where both twins print a same-named child/type field the sets of contexts must agree as well. " +
@@ -671,9 +671,12 @@ type r2pPrintResult struct {
 var r2pPrintCache = map[*Ctx]*r2pPrintResult{}
 
 type r2pReq struct {
-	path  string
-	field *travField
-	owner *travStruct
+	// partialOf: the requirement belongs to a component struct that has a printer of its own; it is only enforced on
+	// paths that print the component (at this access path) PARTIALLY — field by field instead of as a whole
+	partialOf string
+	path      string
+	field     *travField
+	owner     *travStruct
 }
 
 type r2pMethodInfo struct {
@@ -681,9 +684,20 @@ type r2pMethodInfo struct {
 	fd   *ast.FuncDecl
 	pkg  *packages.Package
 	sigs map[string]map[string]string // top-level field -> signature -> witness (template of a path)
+	// tails: trailing terminator (closing punctuation after the last hole: `;`, `}`, `)`, `]`) of the returned text -> witness
+	tails map[string]string
+	root  string   // name of the receiver
+	rets  []r2pRet // symbolic result of every return path
+	// frame: the delimiters every path of this printer starts and ends with ("{", "}"), "" when not uniform
+	frameOpen, frameClose string
 	// R-print-payload / R-print-bare-guard (rules_r3print_fmt.go)
 	fmts map[string]map[string]*r2pFmtRec  // top-level field -> formatting chain -> record
 	bare map[string]map[string]*r2pBareRec // top-level field -> guard function + value -> record
+}
+
+type r2pRet struct {
+	t     r2pTmpl
+	trace string
 }
 
 type r2pFmtRec struct {
@@ -725,7 +739,7 @@ func r2pPrintRun(c *Ctx) *r2pPrintResult {
 			if s == nil || s.IsSem || s.T == m.identT {
 				continue
 			}
-			mi := &r2pMethodInfo{s: s, fd: fd, pkg: p, sigs: map[string]map[string]string{},
+			mi := &r2pMethodInfo{s: s, fd: fd, pkg: p, sigs: map[string]map[string]string{}, tails: map[string]string{},
 				fmts: map[string]map[string]*r2pFmtRec{}, bare: map[string]map[string]*r2pBareRec{}}
 			infos[s] = mi
 			order = append(order, mi)
@@ -736,6 +750,7 @@ func r2pPrintRun(c *Ctx) *r2pPrintResult {
 		res.all = append(res.all, r2pPrintMethod(c, m, mi)...)
 	}
 	res.methods, res.infos = order, infos
+	r2pFinishSkeleton(m, res)
 	// delimiters
 	for _, mi := range order {
 		var fields []string
@@ -788,6 +803,43 @@ func r2pPrintRun(c *Ctx) *r2pPrintResult {
 				}
 			}
 			res.delims = append(res.delims, ob)
+		}
+		// the trailing terminator is printed on every path (a `;` is the closing delimiter of a statement)
+		if len(mi.tails) > 0 {
+			var tl []string
+			for t := range mi.tails {
+				tl = append(tl, t)
+			}
+			sort.Strings(tl)
+			ob := Obligation{Key: travFuncKey(mi.pkg, mi.fd) + "|trailing terminator on every path", Pos: c.Pos(mi.fd.Pos()), Nontrivial: true}
+			if len(tl) == 1 {
+				ob.Status, ob.Detail = Discharged, fmt.Sprintf("every return path of %s.String() ends in %q", mi.s.Short(), tl[0])
+			} else {
+				ob.Status = Violated
+				var ws []string
+				for _, t := range tl {
+					ws = append(ws, fmt.Sprintf("%q on the %s", t, mi.tails[t]))
+				}
+				ob.Detail = fmt.Sprintf("%s.String() ends its text in different terminators depending on the path: %s. A terminator that is only printed for some shapes of the node changes how the FOLLOWING text is parsed: "+
+					"without its `;` a statement in last position becomes the block's trailing expression, and a following `(`, `[` or `-` continues the expression", mi.s.Short(), strings.Join(ws, "; "))
+			}
+			res.delims = append(res.delims, ob)
+			if m.inA(mi.s.T) && mi.s.Twin != nil && infos[mi.s.Twin] != nil && len(infos[mi.s.Twin].tails) > 0 {
+				ti := infos[mi.s.Twin]
+				var tt []string
+				for t := range ti.tails {
+					tt = append(tt, t)
+				}
+				sort.Strings(tt)
+				ob := Obligation{Key: mi.s.Twin.Short() + "~" + mi.s.Short() + "|trailing terminator|twins end alike", Pos: c.Pos(mi.fd.Pos()), Nontrivial: true}
+				if strings.Join(tl, "|") == strings.Join(tt, "|") {
+					ob.Status, ob.Detail = Discharged, fmt.Sprintf("both printers end in %q", tl)
+				} else {
+					ob.Status = Violated
+					ob.Detail = fmt.Sprintf("%s.String() ends in %q, its twin %s.String() in %q: one of the two drops or adds the terminator of the construct", mi.s.Short(), tl, ti.s.Short(), tt)
+				}
+				res.delims = append(res.delims, ob)
+			}
 		}
 		// twin agreement on same-named fields (analyzed side reports)
 		if m.inA(mi.s.T) && mi.s.Twin != nil && infos[mi.s.Twin] != nil {
@@ -843,25 +895,34 @@ func r2pPrintMethod(c *Ctx, m *travModel, mi *r2pMethodInfo) []Obligation {
 	root := fd.Recv.List[0].Names[0].Name
 	// requirements
 	var reqs []r2pReq
-	var addReqs func(s *travStruct, base string, depth int)
-	addReqs = func(s *travStruct, base string, depth int) {
+	var addReqs func(s *travStruct, base string, depth int, partialOf string)
+	addReqs = func(s *travStruct, base string, depth int, partialOf string) {
 		for _, f := range s.Fields {
 			if travNeed(rolePrint, f) != 2 {
 				continue
 			}
-			reqs = append(reqs, r2pReq{path: base + "." + f.Name, field: f, owner: s})
+			reqs = append(reqs, r2pReq{path: base + "." + f.Name, field: f, owner: s, partialOf: partialOf})
 			if depth >= 3 {
 				continue
 			}
 			for _, cs := range m.carrierStructs(f.Var.Type()) {
-				if cs == s || cs.IsSem || cs.T == m.identT || travHasStringer(cs.T) {
+				if cs == s || cs.IsSem || cs.T == m.identT {
 					continue
 				}
-				addReqs(cs, base+"."+f.Name, depth+1)
+				if travHasStringer(cs.T) {
+					// printed as a whole through its own printer — or taken apart here: then every part counts
+					po := partialOf
+					if po == "" {
+						po = base + "." + f.Name
+					}
+					addReqs(cs, base+"."+f.Name, depth+1, po)
+					continue
+				}
+				addReqs(cs, base+"."+f.Name, depth+1, partialOf)
 			}
 		}
 	}
-	addReqs(mi.s, root, 0)
+	addReqs(mi.s, root, 0, "")
 	mentioned := env.mentioned(fd.Body)
 
 	body, loops := r2pWrap(fd.Body)
@@ -871,6 +932,7 @@ func r2pPrintMethod(c *Ctx, m *travModel, mi *r2pMethodInfo) []Obligation {
 		line       int
 	}
 	missing := map[string]*miss{}
+	enforced := map[string]bool{}
 	okPaths := map[string]int{}
 	npaths := 0
 	noteKind := func(st *r2pState, tag ast.Expr, vals []ast.Expr) {
@@ -1026,6 +1088,22 @@ func r2pPrintMethod(c *Ctx, m *travModel, mi *r2pMethodInfo) []Obligation {
 			holes := t.holes()
 			allHoles := t.allHoles()
 			for _, rq := range reqs {
+				if rq.partialOf != "" {
+					// enforced only when the component is printed part by part on this path
+					whole, partial := false, false
+					for h := range holes {
+						if h == rq.partialOf || strings.HasPrefix(rq.partialOf, h+".") {
+							whole = true
+						}
+						if strings.HasPrefix(h, rq.partialOf+".") {
+							partial = true
+						}
+					}
+					if whole || !partial || st.emptyUpTo(rq.partialOf) {
+						continue
+					}
+					enforced[rq.path] = true
+				}
 				covered := r2pCovers(holes, rq.path) || st.emptyUpTo(rq.path)
 				if !covered {
 					// the child's node kind was decided on this path and that kind has nothing (left) to print
@@ -1053,29 +1131,16 @@ func r2pPrintMethod(c *Ctx, m *travModel, mi *r2pMethodInfo) []Obligation {
 					missing[rq.path] = &miss{trace: st.traceStr(), ret: t.String(), line: env.line(o.at)}
 				}
 			}
-			// bracket contexts of child / type fields
+			// the skeleton (bracket contexts, trailing terminator) is computed after all printers have run: see r2pFinishSkeleton
+			mi.root = root
+			if len(mi.rets) < 4000 {
+				mi.rets = append(mi.rets, r2pRet{t: t, trace: st.traceStr()})
+			}
 			for i, sg := range t {
 				if sg.hole == nil || sg.imp {
 					continue
 				}
-				sig := r2pSig(t, i)
-				r2pRecordFormat(mi, root, st, t, sg, sig)
-				for hp := range sg.hole {
-					parts := strings.Split(hp, ".")
-					if len(parts) < 2 || parts[0] != root {
-						continue
-					}
-					f := mi.s.Field(parts[1])
-					if f == nil || (f.Class != tfChild && f.Class != tfType) {
-						continue
-					}
-					if mi.sigs[f.Name] == nil {
-						mi.sigs[f.Name] = map[string]string{}
-					}
-					if _, ok := mi.sigs[f.Name][sig]; !ok {
-						mi.sigs[f.Name][sig] = t.String()
-					}
-				}
+				r2pRecordFormat(mi, root, st, t, sg, r2pSig(t, i))
 			}
 		},
 	}
@@ -1086,14 +1151,25 @@ func r2pPrintMethod(c *Ctx, m *travModel, mi *r2pMethodInfo) []Obligation {
 			Detail: fmt.Sprintf("path enumeration of the printer gave up (overflow=%v, unsupported statements=%d)", w.Overflow, len(w.Unsupported))})
 	}
 	for _, rq := range reqs {
-		if !mentioned[rq.path] {
+		if rq.partialOf != "" {
+			if !enforced[rq.path] {
+				continue // the component is never printed part by part
+			}
+		} else if !mentioned[rq.path] {
 			continue // never mentioned by the method: R-traversal's finding, not a path problem
 		}
 		ob := Obligation{Key: keyBase + "|" + rq.owner.Short() + "." + rq.field.Name + "|printed on every path", Pos: c.Pos(fd.Pos()), Nontrivial: true}
+		if rq.partialOf != "" {
+			ob.Key = keyBase + "|" + strings.TrimPrefix(rq.path, root+".") + "|printed wherever the component is printed part by part"
+		}
 		if ms := missing[rq.path]; ms != nil {
 			ob.Status = Violated
 			ob.Detail = fmt.Sprintf("[print] %s.%s (%s: %s) is inspected by %s but not part of the text returned at line %d on the path [%s]; the path does not establish that the field is empty. returned: %s (the field is printed or known empty on %d of %d return paths)",
 				rq.owner.Short(), rq.field.Name, rq.field.Class, rq.field.Why, FuncName(fd), ms.line, ms.trace, ms.ret, okPaths[rq.path], npaths)
+			if rq.partialOf != "" {
+				ob.Detail = fmt.Sprintf("[print] %s prints the component %s part by part on the path [%s] (returned at line %d: %s) and leaves out %s.%s (%s), which the path does not know to be empty: printing one field of a %s does not print the %s",
+					FuncName(fd), rq.partialOf, ms.trace, ms.line, ms.ret, rq.owner.Short(), rq.field.Name, rq.field.Class, rq.owner.Short(), rq.owner.Short())
+			}
 		} else {
 			ob.Status, ob.Detail = Discharged, fmt.Sprintf("[print] %s (%s) is printed or known empty on all %d return paths", rq.path, rq.field.Class, npaths)
 		}
@@ -1175,5 +1251,158 @@ func (e *r2pPrinter) noteGuard(st *r2pState, cond ast.Expr, taken bool) {
 	}
 	if hs := e.eval(st, call.Args[0]).holes(); len(hs) > 0 {
 		st.guards = append(st.guards, r2pGuardRec{fn: callee, paths: hs, val: taken, line: e.line(call.Pos())})
+	}
+}
+
+// r2pTail: the closing punctuation the text ends in — the characters of `;)]}` at the end of the literal text that
+// follows the last hole (white space ignored); "" when the text ends in a hole or in other characters.
+func r2pTail(t r2pTmpl) string {
+	var lit strings.Builder
+	for _, sg := range t {
+		if sg.imp {
+			continue
+		}
+		if sg.hole != nil {
+			lit.Reset()
+			continue
+		}
+		lit.WriteString(sg.lit)
+	}
+	txt := strings.Join(strings.Fields(lit.String()), "")
+	i := len(txt)
+	for i > 0 && strings.ContainsRune(";)]}", rune(txt[i-1])) {
+		i--
+	}
+	return txt[i:]
+}
+
+// r2pFinishSkeleton computes, from the symbolic results of all printers, the bracket context of every child / type field
+// and the trailing terminator of every printer. A hole that stands for a whole component struct whose own printer frames
+// its text uniformly (a block: `{` … `}`) is expanded to that frame first, so that `loop %s` over a block and a printer
+// that writes the braces itself around the block's parts have the same skeleton.
+func r2pFinishSkeleton(m *travModel, res *r2pPrintResult) {
+	// frames from the raw templates
+	for _, mi := range res.methods {
+		open, cls, first := "", "", true
+		for _, r := range mi.rets {
+			o := ""
+			for _, sg := range r.t {
+				if sg.imp {
+					continue
+				}
+				if sg.hole == nil {
+					if txt := strings.TrimSpace(sg.lit); txt != "" {
+						if strings.ContainsRune("([{", rune(txt[0])) {
+							o = txt[:1]
+						}
+						break
+					}
+					continue
+				}
+				break
+			}
+			c := r2pTail(r.t)
+			if len(c) > 1 {
+				c = c[len(c)-1:]
+			}
+			if first {
+				open, cls, first = o, c, false
+			} else if o != open || c != cls {
+				open, cls = "", ""
+				break
+			}
+		}
+		if open != "" && cls != "" {
+			mi.frameOpen, mi.frameClose = open, cls
+		}
+	}
+	// the struct a path denotes (through by-value / pointer / slice components), nil behind an interface
+	structAt := func(s *travStruct, parts []string) *travStruct {
+		cur := s
+		for _, name := range parts {
+			if cur == nil {
+				return nil
+			}
+			f := cur.Field(name)
+			if f == nil {
+				return nil
+			}
+			var next *travStruct
+			t := f.Var.Type()
+			for depth := 0; depth < 4 && t != nil; depth++ {
+				switch x := types.Unalias(t).(type) {
+				case *types.Pointer:
+					t = x.Elem()
+					continue
+				case *types.Slice:
+					t = x.Elem()
+					continue
+				case *types.Named:
+					next = m.structs[x]
+				}
+				break
+			}
+			cur = next
+		}
+		return cur
+	}
+	for _, mi := range res.methods {
+		for _, r := range mi.rets {
+			// expand framed components
+			var t r2pTmpl
+			for _, sg := range r.t {
+				if sg.hole != nil && !sg.imp && len(sg.hole) == 1 {
+					whole := true
+					for _, op := range sg.chain {
+						if !(op == "%s" || op == "%v" || op == "method:String") {
+							whole = false
+						}
+					}
+					for hp := range sg.hole {
+						parts := strings.Split(hp, ".")
+						if whole && len(parts) >= 2 && parts[0] == mi.root {
+							if cs := structAt(mi.s, parts[1:]); cs != nil && cs != mi.s {
+								if ci := res.infos[cs]; ci != nil && ci.frameOpen != "" {
+									t = append(t, r2pSeg{lit: ci.frameOpen}, sg, r2pSeg{lit: ci.frameClose})
+									whole = false
+									sg.hole = nil
+								}
+							}
+						}
+					}
+					if sg.hole == nil {
+						continue
+					}
+				}
+				t = append(t, sg)
+			}
+			tail := r2pTail(t)
+			if _, ok := mi.tails[tail]; !ok {
+				mi.tails[tail] = fmt.Sprintf("path [%s] returning %s", r.trace, r.t.String())
+			}
+			for i, sg := range t {
+				if sg.hole == nil || sg.imp {
+					continue
+				}
+				sig := r2pSig(t, i)
+				for hp := range sg.hole {
+					parts := strings.Split(hp, ".")
+					if len(parts) < 2 || parts[0] != mi.root {
+						continue
+					}
+					f := mi.s.Field(parts[1])
+					if f == nil || (f.Class != tfChild && f.Class != tfType) {
+						continue
+					}
+					if mi.sigs[f.Name] == nil {
+						mi.sigs[f.Name] = map[string]string{}
+					}
+					if _, ok := mi.sigs[f.Name][sig]; !ok {
+						mi.sigs[f.Name][sig] = r.t.String()
+					}
+				}
+			}
+		}
+		mi.rets = nil
 	}
 }
